@@ -60,7 +60,10 @@ package coverage
 //@ func ReadSet(p *parser.Parser, pos int64) (set Set, err error)   props: C02 C18 C08
 //@   requires parser.inv(p) && pos >= 0
 //@   ensures err == nil ==> set != nil
+//@   ensures err == nil ==> parser.inv(p)
+//@   ensures p.r == old(p.r)
 //@   ensures faults(p.r) > old(faults(p.r)) ==> err != nil
+//@   modifies p.*, allelems(byte), rpos(p.r), faults(p.r)
 //@   loop 0
 //@     invariant parser.inv(p) && 0 <= i && table != nil && fresh(table) && faults(p.r) == old(faults(p.r))
 //@     decreases glyphCount - i
@@ -75,7 +78,10 @@ package coverage
 //@ func Read(p *parser.Parser, pos int64) (table Table, err error)   props: C02 C18 C08
 //@   requires parser.inv(p) && pos >= 0
 //@   ensures err == nil ==> table != nil && covValid(table)
+//@   ensures err == nil ==> parser.inv(p)
+//@   ensures p.r == old(p.r)
 //@   ensures faults(p.r) > old(faults(p.r)) ==> err != nil
+//@   modifies p.*, allelems(byte), rpos(p.r), faults(p.r)
 //@   loop 0
 //@     invariant parser.inv(p) && 0 <= i && i <= glyphCount && table != nil && fresh(table) && faults(p.r) == old(faults(p.r)) && len(table) == i && -1 <= prev && prev <= 65535
 //@     invariant forall g uint16 :: has(table, g) ==> 0 <= table[g] && table[g] < i && g <= prev
